@@ -23,11 +23,11 @@ THEOREMS = {
     "ed_prime_order": "prime_order", "ed_neg_mul": "neg_mul_L", "ed_mul_one": "mul_one'", "ed_mul_mul": "mul_mul",
     "ed_add_zero": "Mathlib:add_zero/zero_add", "ed_add_comm": "Mathlib:add_comm", "ed_neg_def": "neg_mul'",
     "ed_mul_O": "Mathlib:smul_zero", "ed_neg_O": "Mathlib:neg_zero",
-    "ed_same_y": "Edwards:enc_injective_core",
+    "ed_same_y": "Edwards:enc_injective_core", "ed_enc_injective": "Edwards:enc_injective_core",
     "ed_ladder_diff": "Edwards:ladder_diff_abstract",      # with zero_coord_order_four: a zero coordinate means order | 4
     "ed_xrecover_complete": "Edwards:xrecover_complete",   # with xrecover_sq and xrecover_range
 }
-NEEDS_EDGROUP = {k for k in THEOREMS if k.startswith("ed_") and k not in ("ed_same_y", "ed_xrecover_complete")}
+NEEDS_EDGROUP = {k for k in THEOREMS if k.startswith("ed_") and k not in ("ed_same_y", "ed_xrecover_complete", "ed_enc_injective")}
 
 
 def _sha(text):
@@ -84,23 +84,52 @@ def algebra_status():
     return _STATIC["alg"]
 
 
+def bridge_status(part):
+    """one of the two bridge texts (pyvc/leanbridge.py): the z3 instance of every lemma schema printed as a Lean statement, proved
+    by lean/SpakeTheory/BridgeProofs{Abstract,Curve}.lean; returns dict(ok, names, seconds, cached, why)"""
+    key = "bridge_" + part
+    if key not in _STATIC:
+        try:
+            from . import leanbridge
+            text, errors = leanbridge.assemble(part=part)
+            r = run_lean(text, "Bridge_" + part)
+            names = set(re.findall(r"^theorem (?:Bridge\.)?bridge_([A-Za-z_0-9]+)\s*:\s*stmt_\1\b", text, re.M))
+            stmts = set(re.findall(r"^def stmt_([A-Za-z_0-9]+) : Prop", text, re.M))
+            closed = "theorem Bridge.Lc_prime" in text and (part == "abstract" or "theorem Bridge.Q_prime" in text)
+            _STATIC[key] = dict(ok=r["ok"] and not errors and closed, names=names & stmts, seconds=r["seconds"], cached=r["cached"], sha=r["sha"],
+                                why=(str(errors) if errors else r["tail"][-400:]))
+        except Exception as e:
+            _STATIC[key] = dict(ok=False, names=set(), seconds=0, cached=False, sha="", why="%s: %s" % (type(e).__name__, e))
+    return _STATIC[key]
+
+
 def lemma_status(name):
-    """(status, detail) for a T1 lemma schema of theory.py"""
-    th = THEOREMS.get(name)
-    if th is None:
+    """(status, detail) for a lemma schema of theory.py: discharged iff the Lean text that contains the *printed z3 instance* of
+    the schema (`Bridge.stmt_<name>`, generated) and a proof `Bridge.bridge_<name> : Bridge.stmt_<name>` checks"""
+    from . import theory, leanbridge
+    l = theory.LEMMAS.get(name)
+    if l is None or not l.proved or name not in leanbridge.SIG:
         return "assumed", "no Lean theorem (T2)"
-    if th.startswith("Mathlib:"):
-        return "discharged", th
-    if th.startswith("Edwards:"):
-        st = edwards_status()
-        t = th.split(":")[1]
-        return ("discharged", "EdwardsProofs.lean:" + t) if st["ok"] and t in st["theorems"] else ("undecided", "Edwards theorem %s not available: %s" % (t, st.get("why", "")))
-    r, names = algebra_status()
-    if not r["ok"]:
-        return "undecided", "Algebra.lean does not build: " + r["tail"][-300:]
-    if th not in names:
-        return "undecided", "theorem %s not found in Algebra.lean" % th
-    return "discharged", "Algebra.lean:Spake2Algebra.%s (lean %.0fs%s)" % (th, r["seconds"], ", cached" if r["cached"] else "")
+    part = "curve" if name in leanbridge.COORD else "abstract"
+    st = bridge_status(part)
+    if st["ok"] and name in st["names"]:
+        return "discharged", "Bridge.bridge_%s : Bridge.stmt_%s  (statement printed from the z3 schema; BridgeProofs%s.lean; lean %.0fs%s)" % (
+            name, name, part.capitalize(), st["seconds"], ", cached" if st["cached"] else "")
+    return "undecided", "bridge (%s) %s: %s" % (part, "does not check" if not st["ok"] else "has no proof of stmt_" + name, st["why"][-300:])
+
+
+def primes_status():
+    """Nat.Prime Q, L, q1024, q2048 proved in Lean (Lucas test, kernel arithmetic) from the Pratt certificates of certs/:
+    pyvc/leanprimes.py prints the Lean text on every run; returns dict(ok, text, seconds, cached, why)"""
+    if "primes" not in _STATIC:
+        try:
+            from . import leanprimes
+            text = leanprimes.generate()
+            r = run_lean(text, "Primes")
+            _STATIC["primes"] = dict(ok=r["ok"], text=text, seconds=r["seconds"], cached=r["cached"], sha=r["sha"], why=r["tail"][-300:])
+        except Exception as e:
+            _STATIC["primes"] = dict(ok=False, text="", seconds=0, cached=False, sha="", why="%s: %s" % (type(e).__name__, e))
+    return _STATIC["primes"]
 
 
 # ---- generated part ------------------------------------------------------------------------------------------------------
